@@ -753,8 +753,22 @@ fn run_history(nitems: usize, ops: &[Op], st: &mut Stats) {
                 }
                 Op::Insert(c, k) => {
                     let items = fresh(*k);
-                    raw.insert(&cur[*c], items.iter().map(|b| os(b)));
                     let at = idx[*c];
+                    // `insert` takes any IntoIterator: exact-size, with a size hint of 0, and with a
+                    // size hint below the real length (chosen from the state, so replays agree)
+                    match (at + *k + model.len()) % 3 {
+                        0 => raw.insert(&cur[*c], items.iter().map(|b| os(b))),
+                        1 => {
+                            raw.insert(&cur[*c], items.iter().map(|b| os(b)).filter(|_| true));
+                            st.count("cursor.insert-inexact-size-hint");
+                        }
+                        _ => {
+                            let mut it = items.iter().map(|b| os(b));
+                            let first = it.next();
+                            raw.insert(&cur[*c], first.into_iter().chain(it.filter(|_| true)));
+                            st.count("cursor.insert-inexact-size-hint");
+                        }
+                    }
                     for (j, it) in items.into_iter().enumerate() {
                         model.insert(at + j, it);
                     }
